@@ -64,11 +64,6 @@ def specBorderRadius (tokens : List Tok) : Option (List (List Tok)) :=
 
 /-! ## var() substitution -/
 
-/-- finite environment of custom properties (first binding wins) -/
-abbrev Bindings := List (String × List Tok)
-
-def Bindings.get (b : Bindings) (v : String) : List Tok := (b.lookup v).getD []
-
 /-- the fallback of a `var(` argument list: everything after the first top-level comma,
     leading/trailing whitespace trimmed; `none` when there is no comma -/
 def specFallback (args : List Tok) : Option (List Tok) :=
